@@ -382,6 +382,7 @@ def run(ctx):
         return
     odd_key_types(ctx)
     c09_keyopts.key_options(ctx)        # keys through the key_serializer= / key_deserializer= options
+    c09_keyopts.string_key_spellings(ctx)   # every spelling int(s, 2) admits: sign, blanks, underscores, 0b
     # --- widths 1..3 exhaustive over key sets; insertion orders: all (w<=2, and w=3 in thorough) or 4 per set
     for n in (1, 2, 3):
         universe = list(range(1 << n))
@@ -510,3 +511,5 @@ def replay(ctx, payload):
                  inp.get('tag', 'replay'))
     elif 'key_serializer' in inp or 'history' in inp:
         c09_keyopts.key_options(ctx)            # the key option histories (deterministic for the seed)
+    elif 'denotes' in inp:
+        c09_keyopts.string_key_spellings(ctx)
